@@ -30,7 +30,8 @@ shrink_steps = common.rule_case_steps
 
 def generate(run_seed, tier):
     rng = stream(run_seed, "gen")
-    case = G.gen_rule_case(rng, rules=("STV", "STV", "STV", "IRV", "SequentialRCV", "Alaska"), max_c=6 if rng.random() < 0.9 else 9, tie_bias=0.25)
+    u = rng.random()
+    case = G.gen_rule_case(rng, rules=("STV", "STV", "STV", "IRV", "SequentialRCV", "Alaska"), max_c=6 if u < 0.9 else 9 if u < 0.985 else 14, tie_bias=0.25)
     case["policies"] = common.gen_policies(rng, run_seed)
     return case
 
